@@ -429,6 +429,9 @@ func checkRateValuesOrder(list interface{}) error {
 	// loop through and check order of Since value
 	for i := range values {
 		v := values[i]
+		if v == nil {
+			continue
+		}
 		if len(v.Tags) > 0 || len(v.Ext) > 0 {
 			// TODO: check tags and extensions order also
 			// Not too important at the moment.
